@@ -113,6 +113,28 @@ theorem input_pres (c : SCfg) (i : Nat) (inp : Input) : Pres (fun n => n.input c
       exact harvest_fold_ext _ _ _ _ _
     · simp [setNode]
 
+/-- the state of the node that handles an input is what `Cons.step` yields -/
+theorem input_decidedAt (c : SCfg) (net : Net) (i : Nat) (inp : Input) (nd : Node)
+    (hi : net.nodes[i]? = some nd) :
+    (net.input c i inp).decidedAt i = (step (nodeCfg c.cfg nd.idx) nd.s inp).decided := by
+  have hlt : i < net.nodes.length := by
+    rcases Nat.lt_or_ge i net.nodes.length with h | h
+    · exact h
+    · rw [List.getElem?_eq_none h] at hi; cases hi
+  unfold Net.input Net.decidedAt
+  rw [hi]
+  dsimp only
+  simp [setNode, List.getElem?_set_self hlt, harvest]
+
+/-- the block reaching a node: `deliver` of a logged block message is the `blockComplete` input -/
+theorem deliver_block_decidedAt (c : SCfg) (net : Net) (i k b : Nat) (nd : Node)
+    (hi : net.nodes[i]? = some nd) (hk : net.log[k]? = some (.block b)) :
+    (net.deliver c i k).decidedAt i = (step (nodeCfg c.cfg nd.idx) nd.s (.blockComplete b)).decided := by
+  unfold Net.deliver
+  rw [hi, hk]
+  simp only [Msg.own, Msg.signer, Msg.toInput]
+  simpa using input_decidedAt c net i (.blockComplete b) nd hi
+
 theorem deliver_pres (c : SCfg) (i k : Nat) : Pres (fun n => n.deliver c i k) := by
   intro n
   show Later n (n.deliver c i k)
